@@ -70,7 +70,7 @@ def main() -> None:
     na = []
     for p in props:
         pid = p['id']
-        if pid in CHECKS and any((VERIF / 'harness').glob(pid.lower() + '_*.py')):
+        if pid in CHECKS and any((VERIF / "harness").glob(pid.lower() + "_*.py")):
             tech, text, note, ref = CHECKS[pid]
             checks.append({
                 'property_id': pid,
